@@ -560,7 +560,13 @@ pub fn explore_c04(ex: &Ex) {
     let mut pal = prot_palette();
     let base = pal.len();
     pal.extend(alg_forms());
-    let pairs = aad_payload_pairs(ex);
+    let mut pairs = aad_payload_pairs(ex);
+    if ex.scale == Scale::Quick {
+        // the 1 MiB class of the thorough tier, for this (cheap) property in the quick tier too:
+        // placed after the first four pairs so that only the base forms meet it
+        pairs.push((vec![], gen::pattern(1 << 20)));
+        pairs.push((gen::pattern(1 << 20), vec![0x01]));
+    }
     ex.bound("c04", "protected_forms", json!(pal.len()));
     ex.bound("c04", "aad_payload_pairs", json!(pairs.len()));
     let table: std::sync::Mutex<std::collections::HashMap<Vec<u8>, String>> = std::sync::Mutex::new(std::collections::HashMap::new());
